@@ -108,14 +108,15 @@ def audit_axioms(modules: List[str], theorems: List[str], tag: str) -> Dict[str,
             f.write(f"import {m}\n")
         for t in theorems:
             f.write(f"#print axioms {t}\n")
-    p = subprocess.run(
-        ["lake", "env", "lean", path],
-        cwd=LEAN_DIR,
-        stdout=subprocess.PIPE,
-        stderr=subprocess.STDOUT,
-        text=True,
-        timeout=1200,
-    )
+    with _Lock():  # the audit reads .olean files: do not race with a concurrent rebuild
+        p = subprocess.run(
+            ["lake", "env", "lean", path],
+            cwd=LEAN_DIR,
+            stdout=subprocess.PIPE,
+            stderr=subprocess.STDOUT,
+            text=True,
+            timeout=1200,
+        )
     out = p.stdout
     res: Dict[str, dict] = {}
     # messages look like: "'Name' depends on axioms: [a, b]"  or "'Name' does not depend on any axioms"
